@@ -97,6 +97,9 @@ def generate(rng, tier):
                       "rule": rng.choice(["extend", "fill"]), "fill": rng.choice([0, 4, -3]),
                       "face_pos": rng.randrange(3 + (1 if extra else 0)),
                       "seed_listing": rng.randrange(10 ** 6) if rng.random() < 0.6 else None, "narrow": narrow,
+                      "links_as_lists": rng.random() < 0.25,
+                      # the components may be lazy (chunked over the face and the extra dimension)
+                      "lazy": rng.random() < 0.3,
                       "labels": None if rng.random() < 0.7 else rng.choice(
                           [list(range(1, len(dec["conn"]) + 1)), rng.sample(range(0, 12), len(dec["conn"]))])})
     return cases
@@ -144,7 +147,8 @@ def run_impl(case):
     if case.get("seed_listing") is not None:
         import random as _r
         _r.Random(case["seed_listing"]).shuffle(listed)
-    lk = lambda l: (lab[l[0]], l[1], l[2]) if l else None
+    seq = list if case.get("links_as_lists") else tuple      # a table read from JSON / YAML spells links as lists
+    lk = lambda l: seq((lab[l[0]], l[1], l[2])) if l else None
     fc = {"face": {lab[f]: {a: (lk(l), lk(r)) for a, (l, r) in fal} for f, fal in listed}}
     try:
         g = Grid(ds, coords={"X": {"center": "xc", "left": "xg"}, "Y": {"center": "yc", "left": "yg"}},
@@ -170,6 +174,9 @@ def run_impl(case):
                     uda = uda.astype(dt)
                 else:
                     vda = vda.astype(dt)
+        if case.get("lazy"):
+            ch = lambda a: a.chunk({d: 1 for d in a.dims if d in ("face", "t")})
+            uda, vda = ch(uda), ch(vda)
         kw = dict(boundary=case["rule"], fill_value=case["fill"])
 
         def op(name, axis):
